@@ -82,10 +82,19 @@ fn write_degenerate(sc: &Scratch, d: &Degenerate, rng: &mut Rng) -> (String, Str
     let fastq_ok = !d.recs.is_empty() && d.recs.iter().all(|r| !r.seq.is_empty());
     let fastq = fastq_ok && rng.chance(1, 3);
     let gz = rng.chance(1, 4);
-    let raw = if fastq { ser::to_fastq(&d.recs, &SerOpts::plain()) } else { ser::to_fasta(&d.recs, &SerOpts::plain()) };
+    // "every well-formed input": half of the files use a random legal layout (wrapped lines, CRLF, no final newline) and
+    // carry header descriptions, some of them with the characters that start records elsewhere
+    let fancy = rng.chance(1, 2) && d.recs.len() < 1000;
+    let opts = if fancy { SerOpts::random(rng) } else { SerOpts::plain() };
+    let recs: Vec<Rec> = if fancy {
+        d.recs.iter().enumerate().map(|(i, r)| Rec { id: r.id.clone(), desc: if i % 2 == 0 { Some(["c.35G>A", "len=3 >x", "a@b +1", ">"][i / 2 % 4].to_string()) } else { None }, seq: r.seq.clone() }).collect()
+    } else {
+        d.recs.clone()
+    };
+    let raw = if fastq { ser::to_fastq(&recs, &opts) } else { ser::to_fasta(&recs, &opts) };
     let (data, suffix) = if gz { (ser::gzip(&raw, &GzLayout::Single(6), rng), if fastq { "fq.gz" } else { "fa.gz" }) } else { (raw, if fastq { "fq" } else { "fa" }) };
     let p = sc.write(&format!("in.{}", suffix), &data);
-    (p, format!("{}{}", if fastq { "fastq" } else { "fasta" }, if gz { "+gz" } else { "" }))
+    (p, format!("{}{}{}", if fastq { "fastq" } else { "fasta" }, if gz { "+gz" } else { "" }, if fancy { format!(" [{} +descriptions]", opts.describe()) } else { String::new() }))
 }
 
 fn all_zero_row(row: &[u8], delim: &[u8]) -> bool {
